@@ -650,6 +650,12 @@ class C09(Property):
                 continue
             if op.startswith("filt:") and any(o.startswith("filt:") for o in done):
                 continue
+            # lib filters live in the masters' UFO libs; the sparse master that is a UFO of its own has no
+            # such lib, which would make every "filter in all masters" a filter in some masters only
+            if op.startswith("filt:") and "sparse:comps+nd+ufo" in done:
+                continue
+            if op == "sparse:comps+nd+ufo" and any(o.startswith("filt:") for o in done):
+                continue
             if op in ("filt:dtc:1",) and setup["n"] < 2:
                 continue
             out.append(op)
